@@ -209,6 +209,16 @@ func TestVerifAccessors(t *testing.T) {
 			if cell.Acc == "GetMarkup" {
 				decoded["content"] = "<p>some <b>text</b></p>"
 			}
+			if cell.Acc == "GetMarkupNoBody" {
+				switch d % 4 {
+				case 1:
+					decoded["content"] = nil
+				case 2:
+					decoded["content"] = ""
+				case 3:
+					decoded["content"] = "\x1b\x07"
+				}
+			}
 			o := Object(decoded)
 			raw := decoded[key]
 			before := verifCanon(decoded)
@@ -220,6 +230,9 @@ func TestVerifAccessors(t *testing.T) {
 			json.NewDecoder(strings.NewReader(doc)).Decode(&second)
 			if cell.Acc == "GetMarkup" {
 				second["content"] = "<p>some <b>text</b></p>"
+			}
+			if key == "content" && cell.Acc == "GetMarkupNoBody" {
+				continue
 			}
 			panicked, what := verifkit.Try(func() {
 				switch cell.Acc {
@@ -269,7 +282,7 @@ func TestVerifAccessors(t *testing.T) {
 					} else {
 						want = "unparseable"
 					}
-				case "GetMarkup":
+				case "GetMarkup", "GetMarkupNoBody":
 					_, _, e := o.GetMarkup("content", key)
 					err = e
 					got, want = "rendered", "rendered"
